@@ -55,12 +55,31 @@ class StubCQ(Q.ComplexQuantizer):
 
 def make_input(fs, stem, P, taps, Wb, npol, nant, bits, nc, nblocks, bpf, directio):
     """a real synthetic recording into memory, whose data bytes are then replaced by fresh symbols"""
-    with volt_patches(opener=fs.open):
-        be, ant, ws = C02.build(P, taps, Wb, 1, npol, nant, bits, 0, nc, bpf)
-        hd = {'TELESCOP': 'GBT', 'OBSERVER': 'X', 'SRC_NAME': 'Y'}
-        if directio is not None:
-            hd['DIRECTIO'] = directio
-        be.record(stem, num_blocks=nblocks, length_mode='num_blocks', header_dict=hd, digitize=True, verbose=False, load_template=False)
+    aligned = directio == 'aligned'          # DIRECTIO=1 and a header whose cards + END fill a multiple of 512 bytes exactly
+    extra = 0
+    for attempt in range(2):
+        for nm in [n_ for n_ in fs.names() if n_.startswith(stem + '.')]:
+            fs.files.pop(nm, None)
+            fs.files.pop('__flat__' + nm, None)
+        with volt_patches(opener=fs.open):
+            be, ant, ws = C02.build(P, taps, Wb, 1, npol, nant, bits, 0, nc, bpf)
+            hd = {'TELESCOP': 'GBT', 'OBSERVER': 'X', 'SRC_NAME': 'Y'}
+            hd.update({f'PAD{i:03d}': i for i in range(extra)})
+            if directio is not None:
+                hd['DIRECTIO'] = 1 if aligned else directio
+            be.record(stem, num_blocks=nblocks, length_mode='num_blocks', header_dict=hd, digitize=True, verbose=False, load_template=False)
+        if not aligned:
+            break
+        first = [n_ for n_ in fs.names() if n_.startswith(stem + '.')][0]
+        head = b''
+        for w in fs.files[first]:
+            if isinstance(w, npx.SymBytes):
+                break
+            head += bytes(w)
+        cards = head.index(f"{'END':<80}".encode()) // 80 + 1
+        if cards % 32 == 0:
+            break
+        extra = (-cards) % 32
     bytes_, pre = {}, []
     bi = 0
     for nm in fs.names():
@@ -506,7 +525,12 @@ def replay_inject(p):
                'OBSFREQ': 1.0, 'OBSBW': 1.0, 'TELESCOP': 'GBT', 'OBSERVER': 'X', 'SRC_NAME': 'Y', 'PKTIDX': 0}
         if nant > 1:
             hdr['NANTS'] = nant
-        if directio is not None:
+        if directio == 'aligned':
+            directio = 1
+            hdr['DIRECTIO'] = 1
+            for i in range((-(len(hdr) + 1)) % 32):
+                hdr[f'PAD{i:03d}'] = i
+        elif directio is not None:
             hdr['DIRECTIO'] = directio
         for fi in range(-(-n_in // bpf)):
             with open(os.path.join(d, f'in.{fi:04d}.raw'), 'wb') as f:
@@ -671,7 +695,7 @@ def main():
     P, taps, Wb = 4, 2, 3
     for nsb in (1, 2, 3, 4):
         jobs.append(('job_inject', (P, taps, Wb, nsb, 2, 1, 8, 2, 3, 2, 1, 3, True)))
-    for directio in (None, 0, 1):
+    for directio in (None, 0, 1, 'aligned'):
         for (n_in, bpf, n_req) in ((3, 2, 1), (3, 2, 3), (3, 2, 5), (2, 1, 2)):
             jobs.append(('job_inject', (P, taps, 2, 2, 2, 1, 8, 1, n_in, bpf, directio, n_req, False)))
     for (npol, bits) in ((1, 8), (2, 8), (1, 4), (2, 4)):
